@@ -296,8 +296,8 @@ def elements(F, res, pol):
 
 # ------------------------------------------------------------------ start
 def start(F, res, pol):
-    nop = Policy(effects=lambda p: not p.startswith('std::') and not p.startswith('log::') and not p.startswith('anyhow::'),
-                 inline=lambda p: False)
+    from heval import local_policy
+    nop = local_policy(F, 'module::Module::parse', public_events=True)
     ws = Evaluator(F, nop).run_fn('module::Module::parse', [sym('wasm'), sym('config')])
     okp = False
     for w in ws:
@@ -319,6 +319,9 @@ def start(F, res, pol):
         res.ok('start/parse', {'start': 'Some(function id of the start index)'})
     else:
         res.bad('start/parse', 'the start function is not recorded as the function the start section names')
+    from flowlib import name_section_emitter
+    nse = name_section_emitter(F)
+    nop = local_policy(F, 'module::Module::emit_wasm', events=[re.escape(nse) + '$'] if nse else [], public_events=True)
     ws = Evaluator(F, nop).run_fn('module::Module::emit_wasm', [sym('self')])
     some_ok = none_ok = False
     for w in ws:
@@ -420,42 +423,85 @@ def functions(F, res, pol):
         res.ok('function/declare', {'function': 'Uninitialized(type id of the declared type index)'})
     else:
         res.bad('function/declare/missing', 'declare_local_functions has no analysable successful path')
-    nop = Policy(effects=lambda p: not p.startswith('std::') and not p.startswith('log::'), inline=lambda p: False)
-    ws = Evaluator(F, nop).run_fn('module::functions::ModuleFunctions::emit_func_section', [sym('self'), sym('cx')])
+    # the ordering function: the same-file function both the function section and the code section obtain their list from
+    # (found by that role, not by its name); it stays opaque, every other helper next to the emitters is looked through
+    from heval import local_policy, file_of, norm_path
+    from cfg import callee_name
+    FS = 'module::functions::ModuleFunctions::emit_func_section'
+    CS = '<module::functions::ModuleFunctions as emit::Emit>::emit'
+    if FS not in F.mir or CS not in F.mir:
+        res.error('anchor lost: emit_func_section / <ModuleFunctions as Emit>::emit')
+        return
+    from mirinline import callee_of
+
+    def local_callees(root, depth=3):
+        seen, work = set(), [(root, 0)]
+        home = file_of(F, root)
+        while work:
+            p, d = work.pop()
+            for q, body in F.mir.items():
+                if q != p and not q.startswith(p + '::{closure'):
+                    continue
+                for blk in body['blocks']:
+                    t = blk['term']
+                    if t.get('t') == 'Call':
+                        c = callee_of(t)
+                        if c and c in F.mir and file_of(F, c) == home and c not in seen and c not in (FS, CS):
+                            seen.add(c)
+                            if d < depth:
+                                work.append((c, d + 1))
+        return seen
+    common = sorted(x for x in (local_callees(FS) & local_callees(CS)) if '{closure' not in x)
+    if not common:
+        res.bad('function/ordering-function', 'the function section and the code section do not obtain their function list from one '
+                'shared ordering function: the order of bodies can drift from the order of indices')
+        return
+    keep = [re.escape(c) + '$' for c in common]
+    nop = local_policy(F, FS, keep=keep, public_events=True)
+    ws = Evaluator(F, nop).run_fn(FS, [sym('self'), sym('cx')])
     good = False
+    ord_term = None
     for w in ws:
         fc = [e for e in w.trace if e['kind'] == 'call' and e['callee'].endswith('FunctionSection::function')]
         pf = [e for e in w.trace if e['kind'] == 'call' and e['callee'].endswith('push_func')]
         if not fc:
             continue
         src = fc[0]['loops'][-1] if fc[0]['loops'] else None
-        good = len(fc) == 1 and len(pf) == 1 and src is not None and show(src) == 'used_local_functions(cx)' \
-            and pf[0]['loops'] == fc[0]['loops'] \
-            and show(fc[0]['args'][1]) == 'get_type_index(cx.indices, ty(elem(used_local_functions(cx)).1))' \
-            and show(pf[0]['args'][1]) == 'elem(used_local_functions(cx)).0'
+        while src is not None and src[0] == 'call' and src[1].split('::')[-1] in ('into_iter', 'iter') and len(src[2]) == 1:
+            src = src[2][0]
+        is_ord = src is not None and src[0] == 'call' and src[1] in common
+        el = ('elem', fc[0]['loops'][-1]) if fc[0]['loops'] else None
+        a_ty, a_id = show(fc[0]['args'][1]), (show(pf[0]['args'][1]) if pf else '')
+        sel = show(el) if el else '?'
+        good = len(fc) == 1 and len(pf) == 1 and is_ord and pf[0]['loops'] == fc[0]['loops'] \
+            and re.match(r'^get_type_index\(cx\.indices, ty\(%s[.\w]*\)\)$' % re.escape(sel), a_ty) is not None \
+            and re.match(r'^%s[.\w]*$' % re.escape(sel), a_id) is not None
         if not good:
-            res.bad('function/section', 'emit_func_section must, per entry of used_local_functions(cx), emit the type index of that '
+            res.bad('function/section', 'emit_func_section must, per entry of the ordering function, emit the type index of that '
                     'function and assign the next function index to that same function: %s / %s'
                     % ([show(a)[:70] for a in fc[0]['args'][1:]], [show(a)[:70] for e in pf for a in e['args'][1:]]))
             return
+        ord_term = src
     if good:
-        res.ok('function/section', {'function_section': 'type index and function index assigned per entry of used_local_functions(cx)'})
+        res.ok('function/section', {'function_section': 'type index and function index assigned per entry of %s' % show(ord_term)[:60]})
     else:
         res.bad('function/section/missing', 'emit_func_section has no analysable path')
+        return
     # the code section iterates the same ordering function
-    ws = Evaluator(F, nop).run_fn('<module::functions::ModuleFunctions as emit::Emit>::emit', [sym('self'), sym('cx')])
+    nop2 = local_policy(F, CS, keep=keep, public_events=True)
+    ws = Evaluator(F, nop2).run_fn(CS, [sym('self'), sym('cx')])
     good = False
     for w in ws:
         raw = [e for e in w.trace if e['kind'] == 'call' and e['callee'].endswith('CodeSection::raw')]
         if not raw:
             continue
         l = raw[0]['loops'][-1] if raw[0]['loops'] else None
-        good = l is not None and 'used_local_functions(cx)' in show(l) and 'sort' not in show(l) and 'rev' not in show(l)
+        good = l is not None and show(ord_term) in show(l) and 'sort' not in show(l) and 'rev' not in show(l)
     if good:
-        res.ok('function/code-order', {'code_section': 'bodies appended in the order of used_local_functions(cx)'})
+        res.ok('function/code-order', {'code_section': 'bodies appended in the order of %s' % show(ord_term)[:60]})
     else:
-        res.bad('function/code-order', 'the code section must append bodies in exactly the order of used_local_functions(cx), the order '
-                'in which the function section assigned indices')
+        res.bad('function/code-order', 'the code section must append bodies in exactly the order of %s, the order '
+                'in which the function section assigned indices' % show(ord_term)[:60])
 
 
 # ------------------------------------------------------------------ const exprs
